@@ -32,7 +32,7 @@ def spec_args(c):
     if k == 1: return [1 if a[0] else 0, a[1]]
     if k == 2: return [a[0]]
     if k in (3, 5, 8): return [a[0]]
-    if k == 6: return [world.utc_midnight(c["now"]), a[0], a[1], list(a[2])]
+    if k == 6: return [world.utc_midnight(world.clock_after_login(c)), a[0], a[1], list(a[2])]
     return []
 
 
